@@ -277,9 +277,26 @@ def run_instance(inst):
     t = q.t(a_out)
     q.add(f"(not (and (>= {t} 0.0) (<= {t} 1.0)))")
     queries["range"] = q
-    q = newq2("closed_form")
-    q.add(sym.ne(a_out, a_ref))
-    queries["closed_form"] = q
+    dec = mech.decompose_update(a_out, a_ref) if not use_atoms else None
+    if dec is not None:
+        # synapses: (i) the argument of the dt-dependent exp, (ii) the rest with that exp as a shared atom in (0,1]
+        (arg_pairs, (oa, rb)) = dec
+        for lbl, x_, y_ in (("closed_form_exp_argument", arg_pairs[0][0], arg_pairs[0][1]), ("closed_form_rational_part", oa, rb)):
+            # margin variant first: its models replay robustly; the exact variant decides
+            d_ = sym.sub(x_, y_)
+            m_ = sym.mul(const("1/1000"), sym.add(const(1), abs(y_)))
+            q = newq2(lbl + "_margin")
+            q.declare("EXPDT"); q.add("(and (> EXPDT 0.0) (<= EXPDT 1.0))")
+            q.add(sym.bor(sym.lt(m_, d_), sym.lt(d_, sym.neg(m_))))
+            queries[lbl + "_margin"] = q
+            q = newq2(lbl)
+            q.declare("EXPDT"); q.add("(and (> EXPDT 0.0) (<= EXPDT 1.0))")
+            q.add(sym.ne(x_, y_))
+            queries[lbl] = q
+    else:
+        q = newq2("closed_form")
+        q.add(sym.ne(a_out, a_ref))
+        queries["closed_form"] = q
     q = newq2("no_overshoot")
     prod = sym.mul(sym.sub(a_out, x), sym.sub(a_xinf, a_out))
     q.add(sym.lt(prod, const(0)))
@@ -326,9 +343,17 @@ def run_instance(inst):
             res["counters"][f"q_{label}_concrete_{r.status}"] = 1
             if r.status == "unsat":
                 continue
-        if r.status == "sat" and r.model is not None:
+        if r.has_witness:
             obs = real_update(inst, r.model)
-            if judge("defined" if label == "exp_overflow" else label, obs):
+            jl = "closed_form" if label.startswith("closed_form") else label
+            if label.startswith("closed_form") and not judge(jl, obs):
+                # the deviation of a time constant shows best at small dt
+                for dtt in (0.025, 0.001):
+                    m2_ = dict(r.model); m2_["dt"] = dtt
+                    o2 = real_update(inst, m2_)
+                    if judge(jl, o2):
+                        obs = o2; r.model["dt"] = dtt; break
+            if judge("defined" if label == "exp_overflow" else jl, obs):
                 site = {k: round(val, 6) for k, val in r.model.items() if k in ("v", "dt") or k.startswith("p_")}
                 res["violations"].append({
                     "signature": {"mech": inst["mech"], "gate": inst["gate"], "query": label,
